@@ -331,31 +331,31 @@ func init() {
 		Name: "promise-set3", Props: []string{"C11"}, MustFinish: true, ObsNames: stdObs,
 		Doc:   "Promise: 3 concurrent SetResult calls (each result chosen from {(v,nil),(v,E),(v,Canceled),(v,DeadlineExceeded)}) and 2 plain awaiters; exactly one winner, awaiters see the winner's pair",
 		Quick: eng.Bounds{PB: 2}, Thorough: eng.Bounds{PB: 4},
-		Body:  promiseBody([]int{aPlain, aPlain}, 3, false), Post: promisePost(3),
+		Body: promiseBody([]int{aPlain, aPlain}, 3, false), Post: promisePost(3),
 	})
 	eng.Register(&eng.Scenario{
 		Name: "promise-await-errch", Props: []string{"C11"}, MustFinish: true, ObsNames: stdObs,
 		Doc:   "Promise: 1 setter; awaiters Await and AwaitWithErrCh with a cancellable context, canceller and a channel thread (nothing | send error | close errCh)",
 		Quick: eng.Bounds{PB: 2}, Thorough: eng.Bounds{PB: 3},
-		Body:  promiseBody([]int{aPlain, aErrCh}, 1, true), Post: promisePost(1),
+		Body: promiseBody([]int{aPlain, aErrCh}, 1, true), Post: promisePost(1),
 	})
 	eng.Register(&eng.Scenario{
 		Name: "promise-await-cancelch", Props: []string{"C11"}, MustFinish: true, ObsNames: stdObs,
 		Doc:   "Promise: 2 setters; AwaitWithCancelCh awaiter with a cancellable context, canceller and a thread closing the cancel channel (or not)",
 		Quick: eng.Bounds{PB: 2}, Thorough: eng.Bounds{PB: 3},
-		Body:  promiseBody([]int{aCancelCh}, 2, true), Post: promisePost(2),
+		Body: promiseBody([]int{aCancelCh}, 2, true), Post: promisePost(2),
 	})
 	eng.Register(&eng.Scenario{
 		Name: "promise-errch", Props: []string{"C11"}, MustFinish: true, ObsNames: stdObs,
 		Doc:   "Promise: 1 setter, AwaitWithErrCh awaiter, channel thread, canceller, deeper bound",
 		Quick: eng.Bounds{PB: 3}, Thorough: eng.Bounds{PB: 5},
-		Body:  promiseBody([]int{aErrCh}, 1, true), Post: promisePost(1),
+		Body: promiseBody([]int{aErrCh}, 1, true), Post: promisePost(1),
 	})
 	eng.Register(&eng.Scenario{
 		Name: "pcontainer-follow", Props: []string{"C11"}, ObsNames: stdObs,
 		Doc:   "PromiseContainer: Await awaiter while promises p1, p2 are installed and resolved concurrently (p1 resolved before or after installing), optional container.SetResult / SetPromise(nil); every result code incl. context.Canceled / DeadlineExceeded",
 		Quick: eng.Bounds{PB: 1}, Thorough: eng.Bounds{PB: 2},
-		Body:  containerBody([]int{aPlain}, false, true),
+		Body: containerBody([]int{aPlain}, false, true),
 	})
 	eng.Register(&eng.Scenario{
 		Name: "pcontainer-kinds", Props: []string{"C11"}, ObsNames: stdObs,
@@ -369,24 +369,24 @@ func init() {
 		Name: "pcontainer-errch-empty", Props: []string{"C11"}, ObsNames: stdObs,
 		Doc:   "PromiseContainer with no promise: AwaitWithErrCh must return when the error channel delivers or closes",
 		Quick: eng.Bounds{PB: 3}, Thorough: eng.Bounds{PB: 5},
-		Body:  containerChanBody(aErrCh, false),
+		Body: containerChanBody(aErrCh, false),
 	})
 	eng.Register(&eng.Scenario{
 		Name: "pcontainer-cancelch-empty", Props: []string{"C11"}, ObsNames: stdObs,
 		Doc:   "PromiseContainer with no promise: AwaitWithCancelCh must return when the cancel channel closes",
 		Quick: eng.Bounds{PB: 3}, Thorough: eng.Bounds{PB: 5},
-		Body:  containerChanBody(aCancelCh, false),
+		Body: containerChanBody(aCancelCh, false),
 	})
 	eng.Register(&eng.Scenario{
 		Name: "pcontainer-errch-pending", Props: []string{"C11"}, ObsNames: stdObs,
 		Doc:   "PromiseContainer holding an unresolved promise: AwaitWithErrCh must return when the error channel delivers or closes",
 		Quick: eng.Bounds{PB: 3}, Thorough: eng.Bounds{PB: 5},
-		Body:  containerChanBody(aErrCh, true),
+		Body: containerChanBody(aErrCh, true),
 	})
 	eng.Register(&eng.Scenario{
 		Name: "pcontainer-cancelch-pending", Props: []string{"C11"}, ObsNames: stdObs,
 		Doc:   "PromiseContainer holding an unresolved promise: AwaitWithCancelCh must return when the cancel channel closes",
 		Quick: eng.Bounds{PB: 3}, Thorough: eng.Bounds{PB: 5},
-		Body:  containerChanBody(aCancelCh, true),
+		Body: containerChanBody(aCancelCh, true),
 	})
 }
